@@ -44,14 +44,32 @@ def brkMap (ls : List Label) : XRes → XRes
 
 /-! ### clause selection: the two loops of evalSwitch pick the clause Go picks -/
 
-theorem pickCase_eq (tagv : Int) (s : Stack) : ∀ cls : Stmt, pickCase tagv s cls = selectCase tagv s cls := by
+theorem caseMatches_eq (tagv : Int) : ∀ (gs : List Guard) (st : St), caseMatches tagv st gs = evalGuards tagv st gs := by
+  intro gs
+  induction gs with
+  | nil => intro st; rfl
+  | cons g r ih =>
+    intro st
+    cases g with
+    | val e =>
+      simp only [caseMatches, evalGuard, evalGuards, decide_eq_true_eq]
+      split <;> simp_all
+    | cond c =>
+      simp only [caseMatches, evalGuard, evalGuards]
+      split <;> simp_all
+    | eff t e =>
+      simp only [caseMatches, evalGuard, evalGuards, decide_eq_true_eq]
+      split <;> simp_all
+
+theorem pickCase_eq (tagv : Int) : ∀ (cls : Stmt) (st : St), pickCase tagv st cls = selectCaseSt tagv st cls := by
   intro cls
   induction cls with
   | clause g ft body rest _ ih =>
+    intro st
     cases g with
-    | none => simp only [pickCase, selectCase]; exact ih
-    | some gs => simp only [pickCase, selectCase, caseMatches, ih]
-  | _ => simp [pickCase, selectCase]
+    | none => simp only [pickCase, selectCaseSt]; exact ih st
+    | some gs => simp only [pickCase, selectCaseSt, caseMatches_eq, ih]
+  | _ => intro st; simp [pickCase, selectCaseSt]
 
 theorem pickDefault_none_defaults (acc : Option Stmt) : ∀ cls : Stmt, numDefaults cls = 0 → pickDefault acc cls = acc := by
   intro cls
@@ -75,23 +93,24 @@ theorem pickDefault_eq : ∀ cls : Stmt, numDefaults cls ≤ 1 → pickDefault n
     | some gs => intro h; simp only [numDefaults] at h; simp only [pickDefault, selectDefault]; exact ih h
   | _ => intro _; simp [pickDefault, selectDefault]
 
-theorem selectCase_sup (tagv : Int) (s : Stack) : ∀ cls c : Stmt, Sup true cls = true → selectCase tagv s cls = some c → Sup true c = true := by
+theorem selectCase_sup (tagv : Int) : ∀ (cls c : Stmt) (st : St), Sup true cls = true →
+    (selectCaseSt tagv st cls).1 = some c → Sup true c = true := by
   intro cls
   induction cls with
   | clause g ft body rest _ ih =>
-    intro c hs hsel
+    intro c st hs hsel
     cases g with
     | none =>
-      simp only [selectCase] at hsel
+      simp only [selectCaseSt] at hsel
       simp only [Sup, Bool.and_eq_true] at hs
-      exact ih c hs.2 hsel
+      exact ih c st hs.2 hsel
     | some gs =>
-      simp only [selectCase] at hsel
+      simp only [selectCaseSt] at hsel
       split at hsel
-      · cases hsel; exact hs
+      · simp only [Option.some.injEq] at hsel; subst hsel; exact hs
       · simp only [Sup, Bool.and_eq_true] at hs
-        exact ih c hs.2 hsel
-  | _ => intro c _ hsel; simp [selectCase] at hsel
+        exact ih c _ hs.2 hsel
+  | _ => intro c st _ hsel; simp [selectCaseSt] at hsel
 
 theorem selectDefault_sup : ∀ cls c : Stmt, Sup true cls = true → selectDefault cls = some c → Sup true c = true := by
   intro cls
@@ -317,27 +336,31 @@ theorem E_succ {n : Nat} (he : E n) (hb : B n) (hl : L n) (hr : R n) (hc : C n) 
       | normal =>
         cases tag with
         | none =>
-          cases hsc : selectCase 0 st2.stack cls with
-          | some c1 =>
-            simp only [hsc]
-            exact sw_tail hc ls c1 st2 _ (selectCase_sup _ _ cls c1 hcls hsc)
-          | none =>
-            cases hsd : selectDefault cls with
-            | none => simp only [hsc]
+          cases hsc : selectCaseSt 0 st2 cls with
+          | mk o1 st3 =>
+            cases o1 with
             | some c1 =>
               simp only [hsc]
-              exact sw_tail hc ls c1 st2 _ (selectDefault_sup cls c1 hcls hsd)
+              exact sw_tail hc ls c1 st3 _ (selectCase_sup 0 cls c1 st2 hcls (by rw [hsc]))
+            | none =>
+              cases hsd : selectDefault cls with
+              | none => simp only [hsc]
+              | some c1 =>
+                simp only [hsc]
+                exact sw_tail hc ls c1 st3 _ (selectDefault_sup cls c1 hcls hsd)
         | some e =>
-          cases hsc : selectCase (e.eval st2.stack) st2.stack cls with
-          | some c1 =>
-            simp only [hsc]
-            exact sw_tail hc ls c1 st2 _ (selectCase_sup _ _ cls c1 hcls hsc)
-          | none =>
-            cases hsd : selectDefault cls with
-            | none => simp only [hsc]
+          cases hsc : selectCaseSt (e.eval st2.stack) st2 cls with
+          | mk o1 st3 =>
+            cases o1 with
             | some c1 =>
               simp only [hsc]
-              exact sw_tail hc ls c1 st2 _ (selectDefault_sup cls c1 hcls hsd)
+              exact sw_tail hc ls c1 st3 _ (selectCase_sup _ cls c1 st2 hcls (by rw [hsc]))
+            | none =>
+              cases hsd : selectDefault cls with
+              | none => simp only [hsc]
+              | some c1 =>
+                simp only [hsc]
+                exact sw_tail hc ls c1 st3 _ (selectDefault_sup cls c1 hcls hsd)
       | brk l => rfl
       | cont l => rfl
       | ret => rfl
